@@ -559,6 +559,11 @@ func (e *H2End) SendMessageT(st *h2stream, fields []hpack.HeaderField, body []by
 	// the message may end with an empty DATA frame that only carries END_STREAM (legal, and what some
 	// implementations do when they learn late that the body is complete)
 	st.emptyEnd = ch.Chance("seg", "h2emptyend", 1, 4) && len(st.outTrail) == 0
+	for _, f := range fields {
+		if f.Name == ":late-pseudo" || strings.IndexByte(f.Value, 0) >= 0 {
+			st.emptyEnd = false // (a deliberately malformed block ends its stream itself: no frame follows on a stream the receiver refuses)
+		}
+	}
 	endStream := len(body) == 0 && !st.emptyEnd
 	first := block
 	var rest []byte
